@@ -39,7 +39,20 @@ def main() -> int:
     except HarnessError as e:
         print(f"HARNESS-ERROR {a.prop}: {e}", file=sys.stderr)
         return 2
-    except Exception:
+    except Exception as e:  # noqa: BLE001
+        tb = traceback.extract_tb(e.__traceback__)
+        import black_it
+        pkg = str(Path(black_it.__file__).resolve().parent)
+        inner = [f for f in tb if str(Path(f.filename).resolve()).startswith(pkg)]
+        if inner and "chk" in locals():
+            # the exception was raised INSIDE the code under test and escaped through a place where the unchanged code never raises:
+            # the implementation no longer behaves like the model on this input. Reported as a correspondence break, not as a harness error.
+            last = inner[-1]
+            chk.disagree(f"the code under test raised {type(e).__name__}: {str(e)[:160]} at {Path(last.filename).name}:{last.lineno} ({last.name}) "
+                         "where the model (and the unchanged implementation) returns normally",
+                         {"traceback": traceback.format_exception(type(e), e, e.__traceback__)[-6:]})
+            traceback.print_exc()
+            return chk.finish()
         traceback.print_exc()
         print(f"HARNESS-ERROR {a.prop}: unexpected exception in the harness", file=sys.stderr)
         return 2
